@@ -63,6 +63,7 @@ TraceRecv ==
                    \cup Sel("C04", C04_Fails(b, v, hist))
                    \cup Sel("C05", C05_Fails(b, v, hist))
                    \cup Sel("C06", C06_Fails(b, v))
+                   \cup Sel("C08", C08_StreamFails(b, v))
                    \cup Sel("C11", C11_Fails(b, v))
                    \cup c12.f
                    \cup Sel("C14", C14_Fails(b, v))
@@ -77,6 +78,7 @@ TraceRecv ==
                    \cup Flag("C04", C04_Nontrivial(b, v, hist))
                    \cup Flag("C05", C05_Nontrivial(b, v, hist))
                    \cup Flag("C06", C06_Nontrivial(b, v))
+                   \cup Flag("C08", C15_Nontrivial(b, v))
                    \cup Flag("C11", C14_Nontrivial(b, v))
                    \cup Flag("C12", c12.nt)
                    \cup Flag("C14", C14_Nontrivial(b, v))
